@@ -34,8 +34,17 @@ def _run(ctx, ncases, nsteps):
     cone = ' cone="elliptic"' if rng.random() < 0.4 else ""
     solver = ' solver="CG"' if rng.random() < 0.2 and not sleep else ""
     jac = ' jacobian="sparse"' if rng.random() < 0.3 else ""
-    wb, sp = models.random_tree(rng, nbody=int(rng.integers(2, 7)), geom_types=["sphere", "capsule", "box"], spread=0.4, sites=False)
-    xml = models.wrap(wb, option='timestep="0.004"' + cone + solver + jac)
+    wide = c == 0
+    if wide:
+      # the wide dense case: nv > 50 with a DENSE Jacobian makes the solver split every constraint row over several dof-chunk
+      # tasks that accumulate into one cell (solver init / line-search Jv) — code that small models never run
+      sleep, jac = False, ' jacobian="dense"'
+      k = int(rng.integers(9, 11))
+      wb = "".join(f'<body pos="{0.25 * (i % 4):.2f} {0.25 * (i // 4):.2f} {0.098 + 0.001 * i:.3f}"><freejoint/><geom size="0.1"/></body>' for i in range(k))
+      xml = models.wrap(wb, option='timestep="0.004"' + cone + solver + jac)
+    else:
+      wb, sp = models.random_tree(rng, nbody=int(rng.integers(2, 7)), geom_types=["sphere", "capsule", "box"], spread=0.4, sites=False)
+      xml = models.wrap(wb, option='timestep="0.004"' + cone + solver + jac)
     if sleep:
       xml = xml.replace("<option ", '<option><flag sleep="enable"/></option>\n  <option ')
     try:
@@ -43,10 +52,13 @@ def _run(ctx, ncases, nsteps):
     except ValueError:
       continue
     mjd = mujoco.MjData(mjm)
-    models.random_state(rng, mjm, mjd, qpos_scale=0.2, qvel_scale=1.0, unnormalized=False)
-    for j in range(mjm.njnt):
-      if mjm.jnt_type[j] == 0:
-        mjd.qpos[mjm.jnt_qposadr[j] + 2] = rng.uniform(0.05, 0.5)
+    if wide:
+      mjd.qvel[:] = rng.normal(size=mjm.nv) * 0.3
+    else:
+      models.random_state(rng, mjm, mjd, qpos_scale=0.2, qvel_scale=1.0, unnormalized=False)
+      for j in range(mjm.njnt):
+        if mjm.jnt_type[j] == 0:
+          mjd.qpos[mjm.jnt_qposadr[j] + 2] = rng.uniform(0.05, 0.5)
     nworld = int(rng.integers(1, 4))
     m = mjw.put_model(mjm)
 
@@ -95,11 +107,12 @@ def _run(ctx, ncases, nsteps):
           acc.find(f"asleep/awake pattern after step {s} depends on the task order '{order}'", "sleep", "order-sleep", xml=xml, order=order, step=s)
           break
     acc.hit("sleep" if sleep else "nosleep")
+    acc.hit("wide-dense" if wide else "tree")
     acc.sample({"nbody": int(mjm.nbody), "nworld": nworld, "options": (cone + solver + jac).strip(), "sleep": sleep})
   return acc
 
 
-RULE = ("random trees over a floor, 30% sleeping, 40% elliptic, 20% CG, 30% sparse, 1-3 worlds; K steps under the identity order and under 2 (quick) / 5 (thorough) other task orders applied to "
+RULE = ("case 0: 9-10 free spheres resting on the floor with a DENSE Jacobian (nv > 50: rows split over dof-chunk tasks); then random trees over a floor, 30% sleeping, 40% elliptic, 20% CG, 30% sparse, 1-3 worlds; K steps under the identity order and under 2 (quick) / 5 (thorough) other task orders applied to "
         "EVERY launch (reverse, affine maps, rotation); qpos/qvel within 2e-4, nefc equal, contact pair sets equal, asleep pattern equal; distinct = (case, order)")
 
 
